@@ -1596,8 +1596,8 @@ fn do_crash(n: u64, rig: &CrashRig, out: &mut Out) -> Result<(), String> {
     Ok(())
 }
 
-/// Developer probe (not part of the check): `RetainManager::save_snapshot` compares the new snapshot
-/// with the last saved one using `PartialEq`, under which `0.0 == -0.0`.
+/// Developer probe (not part of the check): `RetainManager::save_snapshot` on `+0.0` then `-0.0`
+/// (`PartialEq` finds them equal; the change detection must not, finding C10-negzero-not-saved).
 fn probe_manager() -> i32 {
     use trust_runtime::retain::RetainManager;
     let dir = work_dir();
@@ -1689,7 +1689,7 @@ pub fn run(args: &Args) -> i32 {
         let mut rng = Rng::for_case(args.seed, n);
         out.line(format!("case {n}"));
         if n == CORPUS_LEN - 1 {
-            // witness of the open finding C10-negzero-not-saved
+            // witness of the repaired finding C10-negzero-not-saved: +0.0 then -0.0 must load -0.0
             out.count("corpus:mgr-negzero");
             do_mgr(&negzero_witness(), &path, &mut out);
             out.line("tag nontrivial corpus");
